@@ -34,7 +34,8 @@ NoDup(c) == Cardinality(ToSet(c.nondust)) = Len(c.nondust) /\ Cardinality(ToSet(
 
 TraceInit ==
   /\ l = 1 /\ nodeOf = <<>> /\ saved = <<>> /\ everRAA = <<>> /\ projB = <<>>
-  /\ fw = [adds |-> {}, downFul |-> {}, upClaimed |-> {}, settledNow |-> {}, base0 |-> <<>>, pol |-> <<>>]
+  /\ fw = [adds |-> {}, downFul |-> {}, upClaimed |-> {}, settledNow |-> {}, base0 |-> <<>>, pol |-> <<>>,
+           shut |-> {}, closeFee |-> <<>>]
   /\ par = <<>> /\ cnt = <<>> /\ hs = <<>> /\ fees = <<>> /\ feeBase = <<>> /\ base = <<>>
   /\ link = <<>> /\ redo = <<>> /\ lastCS = <<>> /\ order = <<>> /\ pts = <<>> /\ mon = <<>>
   /\ ownExp = <<>>
@@ -67,11 +68,12 @@ TOpen ==
         /\ saved' = <<>> /\ projB' = <<>>
         /\ fw' = [adds |-> {}, downFul |-> {}, upClaimed |-> {}, settledNow |-> {},
                    base0 |-> [e \in E |-> IF e[2] = 1 THEN cs[ch(e[1])].bal_a_msat ELSE cs[ch(e[1])].bal_b_msat],
-                   pol |-> R.policy]
+                   pol |-> R.policy, shut |-> {}, closeFee |-> [c \in C |-> 0]]
 
 \* not part of the commitment protocol; `warning` / `disconnect_peer` ask the transport to drop the
 \* peer (the harness then disconnects, as PeerManager would) -- an `error` is never acceptable
-Ignored == {"channel_ready", "announcement_signatures", "channel_update", "warning", "disconnect_peer"}
+Ignored == {"channel_ready", "announcement_signatures", "channel_update", "warning", "disconnect_peer",
+            "shutdown", "closing_signed"}
 
 \* ---- a message leaves node R.from
 \* ---- forwarding observer (C02)
@@ -97,7 +99,12 @@ TMsg ==
             IF R.kind = "update_add_htlc"
             THEN [fw EXCEPT !.adds = @ \cup {[node |-> R.from, chan |-> R.chan, dir |-> "out", hash |-> R.hash, amt |-> R.amt, cltv |-> R.cltv]}]
             ELSE IF R.kind = "update_fulfill_htlc" THEN [fw EXCEPT !.upClaimed = @ \cup {<<R.from, R.hash>>}]
+            ELSE IF R.kind = "shutdown" THEN [fw EXCEPT !.shut = @ \cup {R.chan}]
+            ELSE IF R.kind = "closing_signed" THEN [fw EXCEPT !.closeFee[R.chan] = R.fee]
             ELSE fw
+  \* after shutdown no new HTLC is offered
+  /\ (R.chan # 0 /\ R.kind = "update_add_htlc" /\ ~Closed(EP(R.chan, R.from))) =>
+        G1(R.chan \notin fw.shut \/ Has(EP(R.chan, R.from), "out", R.id))
   /\ (R.chan # 0 /\ R.kind = "update_add_htlc") => G2(ForwardTerms(R.from, R.amt, R.cltv, R.hash))
   /\ (R.chan # 0 /\ R.kind \in {"update_fail_htlc", "update_fail_malformed_htlc"} /\ ~Closed(EP(R.chan, R.from)))
         => G2(MayFailUp(R.from, EP(R.chan, R.from), R.id))
@@ -134,7 +141,9 @@ TDeliver ==
             ELSE fw
   /\ LET k == R.kind  e == EP(R.chan, R.to) IN
      IF R.chan = 0 \/ Closed(e) THEN UNCHANGED cvars ELSE
-     IF k = "error" \/ (k = "channel_reestablish" /\ Closed(Peer(e))) THEN
+     IF k = "error" \/ (k = "channel_reestablish" /\ Closed(Peer(e))) \/ R.tampered THEN
+          \* (a revoke_and_ack whose secret does not match the announced point must be refused: the
+          \* receiver closes the channel and stores nothing -- C05)
           \* the peer closed (only a closed endpoint sends an error or a bogus reestablish): we close too
           /\ link' = [link EXCEPT ![e] = "closed"]
           /\ Unch(<<par, cnt, hs, fees, feeBase, base, redo, lastCS, order, pts, mon, ownExp>>) ELSE
@@ -155,6 +164,8 @@ TPersist ==
   /\ IsEvent("persist")
   /\ UNCHANGED Aux
   /\ G12(RtOK)
+  \* a closed channel accepts no further revocation secret (in particular not a forged one)
+  /\ Closed(EP(R.chan, R.node)) => G5(StepsOf("commitment_secret") = {})
   /\ IF ~R.has_update \/ Closed(EP(R.chan, R.node)) \/ R.kind = "load" THEN UNCHANGED cvars
      ELSE LET e == EP(R.chan, R.node)
               cpN == {R.steps[k].c.num : k \in StepsOf("counterparty_commitment")}
@@ -218,17 +229,37 @@ TCrash ==
   \* a clean reload (latest manager, every monitor write landed) must never close a channel (C12)
   /\ R.reload => G12(\A e \in EPsOf(R.node) : link[e] # "closed" => link'[e] # "closed")
 
+\* what a cooperative close pays: each side's irrevocable balance, the funder's less the agreed fee
+\* (an output exactly at the dust limit may be kept -- BOLT-3 "below" -- or dropped, as LDK does)
+CoopOutputs(c, atDust) ==
+  LET f == par[c].funder
+      vf == SatSub(base[<<c, f>>] \div 1000, fw.closeFee[c])
+      vo == base[<<c, Other(f)>>] \div 1000
+      keep(v, s) == v > par[c].dust[s] \/ (atDust /\ v = par[c].dust[s])
+      lo == IF vf <= vo THEN vf ELSE vo
+      hi == IF vf <= vo THEN vo ELSE vf
+      klo == IF vf <= vo THEN keep(vf, f) ELSE keep(vo, Other(f))
+      khi == IF vf <= vo THEN keep(vo, Other(f)) ELSE keep(vf, f)
+  IN (IF klo THEN <<lo>> ELSE <<>>) \o (IF khi THEN <<hi>> ELSE <<>>)
 TBroadcast ==
   /\ IsEvent("broadcast") /\ Stutter
+  /\ (R.type = "CooperativeClose" /\ R.spends_chan # 0) => G1(R.out_values \in {CoopOutputs(R.spends_chan, TRUE), CoopOutputs(R.spends_chan, FALSE)})
   /\ R.c_num >= 0 =>
        LET o == EP(R.chan, R.node) IN
        /\ G1(Closed(o))                      \* never on a live channel
        /\ G5(R.c_num >= everRAA[o])          \* never a commitment whose secret was released
 
 \* ---- events: a closed channel has no place on an honest off-chain run
+CoopClose == R.kind = "ChannelClosed" /\ R.reason = "CooperativeClosure"
 TEvent ==
-  /\ IsEvent("event") /\ Stutter
-  /\ R.kind = "ChannelClosed" => G1(Closed(EP(R.chan, R.node)))
+  /\ IsEvent("event") /\ UNCHANGED Aux
+  /\ IF CoopClose /\ ~Closed(EP(R.chan, R.node))
+     THEN \* a cooperative close needs a shutdown exchange and no pending HTLC
+          /\ G1(R.chan \in fw.shut /\ hs[EP(R.chan, R.node)] = {})
+          /\ link' = [link EXCEPT ![EP(R.chan, R.node)] = "closed"]
+          /\ Unch(<<par, cnt, hs, fees, feeBase, base, redo, lastCS, order, pts, mon, ownExp>>)
+     ELSE /\ UNCHANGED cvars
+          /\ R.kind = "ChannelClosed" => G1(Closed(EP(R.chan, R.node)))
   /\ R.kind = "PaymentSent" => R.preimage_ok
 
 TProj ==
@@ -254,7 +285,7 @@ TProj ==
         G12(b.out_cap = R.out_cap /\ b.in_cap = R.in_cap /\ b.n_in = R.n_in /\ b.n_out = R.n_out /\ b.ready = R.ready)
 
 TOther ==
-  /\ l <= Len(Rec) /\ Rec[l].ev \in {"forward", "claim", "fail", "fee", "tick", "block", "persist_mode", "restarted"}
+  /\ l <= Len(Rec) /\ Rec[l].ev \in {"forward", "claim", "fail", "fee", "tick", "block", "persist_mode", "restarted", "close"}
   /\ l' = l + 1 /\ Stutter
 
 TraceNext == TOpen \/ TMsg \/ TDeliver \/ TPersist \/ TComplete \/ TSend \/ TDisconnect \/ TReconnect
